@@ -402,21 +402,34 @@ func init() {
 			if fn == nil {
 				obs = append(obs, anchorMissing("SLEEP.cap-positive", "libtime.sleepCap"))
 			} else {
-				u := FuncUnit{fn, fd, pkg}
-				info := pkg.TypesInfo
-				fc := c.cfgOf(u, nil)
 				ord := &ordinal{}
+				var checkReturns func(u FuncUnit, nres int, depth int)
+				checkReturns = func(u FuncUnit, nres int, depth int) {
+				fd := u.Decl
+				info := u.Pkg.TypesInfo
+				fc := c.cfgOf(u, nil)
 				for _, b := range fc.G.Blocks {
 					if !fc.Live(b) {
 						continue
 					}
 					for _, n := range b.Nodes {
 						rs, ok := n.(*ast.ReturnStmt)
-						if !ok || len(rs.Results) != 2 {
+						if !ok || len(rs.Results) != nres {
 							continue
 						}
-						if tv, ok := info.Types[rs.Results[1]]; !ok || !tv.IsNil() {
-							continue // an error return
+						if nres == 2 {
+							if tv, ok := info.Types[rs.Results[1]]; !ok || !tv.IsNil() {
+								continue // an error return
+							}
+						}
+						// the cap is computed by a helper of the package: its returns are the caps
+						if ce, ok := ast.Unparen(rs.Results[0]).(*ast.CallExpr); ok && depth < 2 {
+							if h := originOf(Callee(info, ce)); h != nil && h.Pkg() == fn.Pkg() && h.Type().(*types.Signature).Results().Len() == 1 {
+								if hd := c.declOf[h]; hd != nil && hd.Body != nil {
+									checkReturns(FuncUnit{h, hd, c.pkgOf[hd]}, 1, depth+1)
+									continue
+								}
+							}
 						}
 						v := ast.Unparen(rs.Results[0])
 						construct := ord.next("cap returned")
@@ -471,6 +484,8 @@ func init() {
 						obs = append(obs, mkOb(c, "SLEEP.cap-positive", u, construct, rs, Violated, "sleepCap can return `"+term+"` without it having been shown positive: a zero or negative cap reads as `no limit`, so a host ceiling that is disabled (negative) removes the one-hour default", true))
 					}
 				}
+				}
+				checkReturns(FuncUnit{fn, fd, pkg}, 2, 0)
 			}
 			// the accessor
 			afn, afd, apkg := c.LookupFunc("lisp.(*Runtime).MaxSleepCeiling")
